@@ -197,6 +197,20 @@ func ClosureOf(v ssa.Value) *ssa.Function {
 	for i := 0; i < 8 && v != nil; i++ {
 		switch x := v.(type) {
 		case *ssa.MakeInterface:
+			// a callable object: a (pointer to a) named struct boxed into a single-method interface stands for
+			// that method (the object-shaped sibling of a function literal converted to a func type)
+			if it, ok := x.Type().Underlying().(*types.Interface); ok && it.NumMethods() == 1 && x.Parent() != nil {
+				t := x.X.Type()
+				if pt, isPtr := t.Underlying().(*types.Pointer); isPtr {
+					t = pt.Elem()
+				}
+				if _, isStruct := t.Underlying().(*types.Struct); isStruct && NamedOf(t) != nil {
+					m := it.Method(0)
+					if fn := x.Parent().Prog.LookupMethod(x.X.Type(), m.Pkg(), m.Name()); fn != nil && fn.Blocks != nil {
+						return fn
+					}
+				}
+			}
 			v = x.X
 		case *ssa.ChangeType:
 			v = x.X
